@@ -223,7 +223,8 @@ def check_impl(crate, b, res):
             okb = False
             for pth in arm_cl:
                 cv0, cbs0 = by_path[pth]
-                if _closure_reports_bound(cv0, cbs0, want_bound, alt=(want_bound % (2 ** bits)) if cls == "nonzero" else None):
+                if _closure_reports_bound(cv0, cbs0, want_bound, alt=(want_bound % (2 ** bits)) if cls == "nonzero" else None,
+                                          scopes=[v] + [x_[0] for x_ in cl]):
                     okb = True
             # ... or directly on the arm (`match <$t>::try_from(x) { Ok(n) => Ok(n), Err(_) => Err(<report>) }`)
             if not okb and _closure_reports_bound(v, bs, want_bound, alt=(want_bound % (2 ** bits)) if cls == "nonzero" else None, payload=payload, region=own):
@@ -388,7 +389,21 @@ def _exact_chain(crate, v, t, var, self_s, cls, src_ty, closures):
     return "closure body not found"
 
 
-def _closure_reports_bound(cv, cbs, want_bound, alt=None, payload=None, region=None):
+def _resolve_upvar(cv, name, scopes):
+    """term (in the creating body) of what a closure captured under `name`: scopes = views that may create the closure"""
+    ups = cv.b.d.get("upvars") or []
+    if name not in ups:
+        return None
+    idx = ups.index(name)
+    for pv in scopes:
+        for bb in pv.reach:
+            for st in pv.blocks[bb]["stmts"]:
+                if st["k"] == "assign" and st["rv"]["k"] == "agg" and st["rv"].get("ak") == "closure" and st["rv"].get("path") == cv.b.path and idx < len(st["rv"]["ops"]):
+                    return strip_refs(canon(pv, pv.origin(st["rv"]["ops"][idx])))
+    return None
+
+
+def _closure_reports_bound(cv, cbs, want_bound, alt=None, payload=None, region=None, scopes=()):
     """the closure builds Unexpected{msg: format!(.. x .. bound ..)} : among the format arguments one is the captured payload, one the constant bound"""
     if not any(s.ek == "Unexpected" and s.handling == "collapsed" and (region is None or s.bb in region) for s in cbs.sites):
         return False
@@ -401,11 +416,19 @@ def _closure_reports_bound(cv, cbs, want_bound, alt=None, payload=None, region=N
             a = cv.origin(cv.blocks[bb]["term"]["args"][0])
             a = strip_refs(canon(cv, a))
             if payload is None and a[0] == "field" and strip_refs(a[1]) == ("param", 1) and a[2] is None:
-                saw_x = True     # the captured payload (whatever the binding is called)
+                up_ = _resolve_upvar(cv, a[3], scopes) if scopes else None
+                if up_ is None or (up_[0] == "field" and up_[2] in ("Integer", "NegativeInteger")) or (up_[0] == "field" and strip_refs(up_[1]) == ("param", 1) and up_[2] is None):
+                    saw_x = True     # the captured payload (whatever the binding is called)
             if payload is not None and a == payload:
                 saw_x = True
             if a == ("const", "int", want_bound) or (alt is not None and a == ("const", "int", alt)):
                 saw_bound = True  # (NonZero constants are exported as the raw bits of their integer)
+            if a[0] == "field" and strip_refs(a[1]) == ("param", 1) and a[2] is None and scopes:
+                # a captured `let max = <T>::MAX;` of the enclosing function
+                up = _resolve_upvar(cv, a[3], scopes)
+                if up is not None and (up == ("const", "int", want_bound) or (alt is not None and up == ("const", "int", alt))):
+                    saw_bound = True
+                    continue
             if a[0] == "multi":
                 # `let bound = <T>::MAX;` style temporaries
                 for d in cv.whole_defs(a[1]):
